@@ -48,7 +48,13 @@ def header_ok(F, crate, hdr, kind, row, sized):
     vals = dict(zip(hdr[1][3], hdr[2]))
     if crate == "multiboot2":
         typ = vals.get("typ")
-        t_ok = typ is not None and typ[0] == "cast" and typ[1] == "Transmute" and typ[2][0] == "call" and typ[2][1] == T2 and typ[2][2][0][0] == "cs" and typ[2][2][0][2] == kind
+        # TagTypeId is a transparent newtype over u32: transmute(n) and TagTypeId(n) / TagTypeId::new(n) are the same value
+        num = None
+        if typ is not None and typ[0] == "cast" and typ[1] == "Transmute":
+            num = typ[2]
+        elif typ is not None and typ[0] == "aggr" and typ[1][:2] == ("adt", "multiboot2::tag_type::TagTypeId") and len(typ[2]) == 1:
+            num = typ[2][0]
+        t_ok = num is not None and num[0] == "call" and num[1] == T2 and num[2][0][0] == "cs" and num[2][0][2] == kind
     else:
         typ = vals.get("typ")
         t_ok = typ == ("aggr", ("adt", "multiboot2_header::tags::HeaderTagType", kind, ()), ())
